@@ -321,3 +321,63 @@ func (ss SlotSpec) FormLifetime() godi.Lifetime {
 	}
 	return godi.Singleton
 }
+
+// SwapSpecs: "swap a service for another one" between two Builds of one collection - the
+// documented Remove + Add sequence - so that the collection holds the SAME NUMBER of
+// registrations at both Builds and only the replaced registration differs: another constructor,
+// and another lifetime (every ordered pair). The consumer reaches the service through a plain
+// parameter, a keyed / aliased / optional parameter-object field. Half of the specs keep the
+// first provider alive. wantConflict=false: the consumer is scoped, every final set is valid;
+// wantConflict=true: the consumer is a singleton / transient and the replacement is scoped - the
+// second Build must refuse what the first one accepted.
+func SwapSpecs(wantConflict bool) []*Spec {
+	type form struct {
+		consumer string
+		opt      func(*Reg)
+		rmType   string
+		rmKey    string
+	}
+	forms := []form{
+		{"PosA_0_2", nil, "K1", ""},
+		{"InU_0_2_Keyed", withName("k"), "K1", "k"},
+		{"InU_0_2_Iface", withAs("IK1"), "IK1", ""},
+		{"InU_0_2_Opt", nil, "K1", ""},
+	}
+	var out []*Spec
+	for _, f := range forms {
+		for _, l1 := range allLifetimes {
+			for _, l2 := range allLifetimes {
+				if l1 == l2 {
+					continue
+				}
+				consumerLives := []godi.Lifetime{godi.Scoped}
+				if wantConflict {
+					if l2 != godi.Scoped {
+						continue
+					}
+					consumerLives = []godi.Lifetime{godi.Singleton, godi.Transient}
+				}
+				for _, cl := range consumerLives {
+					for _, keep := range []bool{false, true} {
+						var o1, o2 []func(*Reg)
+						if f.opt != nil {
+							o1, o2 = []func(*Reg){f.opt}, []func(*Reg){f.opt}
+						}
+						s := &Spec{RebuildAfter: 3, KeepSibling: keep, Regs: []Reg{
+							mkReg("Leaf_S0_a", godi.Singleton), // a bystander
+							mkReg("Leaf_K1_a", l1, o1...),
+							mkReg(f.consumer, cl),
+							{Remove: true, RmType: f.rmType, RmKey: f.rmKey, Tail: true},
+							tailReg(mkReg("Leaf_K1_b", l2, o2...)),
+						}}
+						if wantConflict && l1 == godi.Scoped {
+							continue
+						}
+						out = append(out, s)
+					}
+				}
+			}
+		}
+	}
+	return out
+}
